@@ -501,8 +501,15 @@ WellFormedCheck ==   \* C14 on the dump carried by the current event
   LET w == DumpIllFormed(Rec[l].graph) IN
   IF w = "" THEN TRUE ELSE Emit(Finding("C14", w, [query |-> Rec[l].query]))
 NoRef == "noref" \in DOMAIN Meta /\ Meta.noref
+HasGraph == "graph" \in DOMAIN Rec[l] /\ "nodes" \in DOMAIN Rec[l].graph
+(* the graph could not be read back after the case: reported, the reference state is kept *)
+TNoGraph ==
+  /\ l <= Len(Rec) /\ Rec[l].ev = "case" /\ Rec[l].kind \in {"upd", "txn"} /\ ~HasGraph
+  /\ Emit(Finding(IF "prop" \in DOMAIN Meta THEN Meta.prop ELSE "C12", "graph-unreadable-after-statement",
+                  [dump |-> Rec[l].graph, query |-> Rec[l].query]))
+  /\ l' = l + 1 /\ UNCHANGED <<ovf, gr, ixpre, firstlab, extids>>
 TUpd ==
-  /\ IsCase("upd")
+  /\ IsCase("upd") /\ HasGraph
   /\ WellFormedCheck
   /\ LET out == IF NoRef THEN [ok |-> TRUE, g |-> gr] ELSE ApplyStmt(gr, Meta.ast)
          obs == Rec[l].graph
@@ -518,14 +525,14 @@ TUpd ==
            ELSE LET d == GraphDiff(out.g, obs) IN
                 IF d = "" THEN TRUE
                 ELSE IF OrderDependent(gr, Meta.ast) THEN TRUE    \* no single predicted graph: not judged
-                ELSE Emit(Finding("C12", d, [cause |-> LET alt == ApplyStmtU(gr, Meta.ast, "stmt", FALSE)
+                ELSE Emit(Finding(IF "prop" \in DOMAIN Meta THEN Meta.prop ELSE "C12", d, [cause |-> LET alt == ApplyStmtU(gr, Meta.ast, "stmt", FALSE)
                                                             alt2 == ApplyStmtU(gr, Meta.ast, "clause", FALSE) IN
                                                         IF alt.ok /\ GraphDiff(alt.g, obs) = ""
                                                         THEN "update-expressions-read-the-pre-statement-graph"
                                                         ELSE IF alt2.ok /\ GraphDiff(alt2.g, obs) = ""
                                                         THEN "update-expressions-read-the-graph-at-clause-start" ELSE "none",
                                              before |-> sizes(gr), predicted |-> sizes(out.g), observed |-> sizes(obs),
-                                             rep |-> Meta.rep, query |-> Rec[l].query])))
+                                             rep |-> IF "rep" \in DOMAIN Meta THEN Meta.rep ELSE 0, query |-> Rec[l].query])))
         ELSE
           (IF IsRows THEN Emit(Finding("C14", "statement-should-fail", [why |-> out.why, query |-> Rec[l].query]))
            ELSE LET d == GraphDiff(gr, obs) IN
@@ -542,7 +549,7 @@ TUpd ==
 (* ROLLBACK the graph before the transaction.                              *)
 (***************************************************************************)
 TTxn ==
-  /\ IsCase("txn")
+  /\ IsCase("txn") /\ HasGraph
   /\ WellFormedCheck
   /\ LET stmts == Rec[l].stmts
          sres == Rec[l].stmt_res
@@ -612,7 +619,7 @@ TOtherCase ==
   /\ Rec[l].kind \notin {"truth3", "cmp", "arith", "order", "agg", "err", "part", "read", "idx", "write", "admin", "lim", "upd", "txn", "bread", "ext", "extadmin"}
   /\ l' = l + 1 /\ UNCHANGED <<ovf, gr, ixpre, firstlab, extids>>
 
-Next == TSession \/ TRead \/ TWrite \/ TLim \/ TUpd \/ TTxn \/ TExt \/ TTruth3 \/ TCmp \/ TArith \/ TOrder \/ TAgg \/ TErr \/ TPart \/ TOtherCase
+Next == TSession \/ TRead \/ TWrite \/ TLim \/ TUpd \/ TTxn \/ TNoGraph \/ TExt \/ TTruth3 \/ TCmp \/ TArith \/ TOrder \/ TAgg \/ TErr \/ TPart \/ TOtherCase
 Spec == Init /\ [][Next]_vars
 
 TraceAccepted ==
